@@ -5,13 +5,13 @@ CONSTANTS
   FixZero = TRUE
   FixRevReason = TRUE
   FixSerRev = TRUE
-  Slice = "Life"
+  Slice = "Life1"
   BaseMenu <- BaseMenuMC
   SubMenu <- SubMenuMC
   Nows <- AllNows
   MaxT = 3
-  MaxSubs = 2
-  MaxSubSigs = 2
+  MaxSubs = 1
+  MaxSubSigs = 3
   MaxIdSigs = 2
   LifeAlgos = {"rsa"}
   LifeFlags <- LifeFlagsMC
